@@ -71,6 +71,13 @@ def _nonneg(t):
     return False
 
 
+class NativeNamespace:
+    """stand-in for a module / object whose attributes the analysed code reads (values may be symbolic)"""
+
+    def __init__(self, **kw):
+        self.__dict__.update(kw)
+
+
 class PyRaise(Exception):
     def __init__(self, name):
         self.name = name
@@ -376,7 +383,24 @@ class Executor:
             base = self.expr(e.value, env, globs)
             if is_sym(base):
                 raise Unmodelled("attribute of symbolic")
-            return ("attr", base, e.attr)
+            try:
+                return getattr(base, e.attr)
+            except AttributeError:
+                raise PyRaise("AttributeError")
+        if isinstance(e, ast.ListComp):
+            if len(e.generators) != 1:
+                raise Unmodelled("nested comprehension")
+            g = e.generators[0]
+            it = self.expr(g.iter, env, globs)
+            if is_sym(it):
+                raise Unmodelled("comprehension over symbolic")
+            out = []
+            inner = dict(env)
+            for x in it:
+                self.assign(g.target, x, inner, set())
+                if all(self.truth(self.expr(c, inner, globs)) for c in g.ifs):
+                    out.append(self.expr(e.elt, inner, globs))
+            return out
         raise Unmodelled("expression " + type(e).__name__)
 
     def compare(self, op, a, b):
@@ -562,10 +586,18 @@ class Executor:
         if isinstance(e.func, ast.Attribute):
             base = self.expr(e.func.value, env, globs)
             meth = e.func.attr
-            if isinstance(base, tuple) and len(base) == 3 and base[0] == "attr":
-                raise Unmodelled("module call")
             if is_sym(base):
                 raise Unmodelled("method of symbolic")
+            import types
+            if isinstance(base, types.ModuleType) or isinstance(base, NativeNamespace):
+                target = getattr(base, meth, None)
+                if target is None:
+                    raise PyRaise("AttributeError")
+                if not any(is_sym(a) for a in args) and not any(is_sym(v) for v in kwargs.values()):
+                    return self.native(target, args, kwargs)
+                if meth in self.funcs:
+                    return self.call_function(meth, args, kwargs)
+                raise Unmodelled("module function %s with symbolic argument" % meth)
             if isinstance(base, str) and meth in ("find", "startswith", "endswith", "strip", "split", "format"):
                 if any(is_sym(a) for a in args):
                     raise Unmodelled("str method with symbolic argument")
@@ -638,6 +670,37 @@ class Executor:
             return list(args[0]) if args else []
         if name == "print":
             return None
+        if name == "sum":
+            vals = list(args[0])
+            if not any(is_sym(v) for v in vals):
+                return sum(vals)
+            r = bvc(0)
+            for v in vals:
+                r = r + lift(v)
+            return SymInt(r)
+        if name == "hex" and not is_sym(args[0]):
+            return hex(args[0])
+        if name in ("dict", "set", "tuple", "sorted") and not any(is_sym(a) for a in args):
+            return {"dict": dict, "set": set, "tuple": tuple, "sorted": sorted}[name](*args)
         if name in self.module_globals and callable(self.module_globals[name]):
-            raise Unmodelled("external function " + name)
+            if not any(is_sym(a) for a in args):
+                return self.native(self.module_globals[name], args, {})
+            raise Unmodelled("external function %s with symbolic argument" % name)
         raise Unmodelled("builtin " + name)
+
+    def native(self, target, args, kwargs):
+        """deterministic real function on concrete arguments: just call it"""
+        def has_sym(x, depth=0):
+            if is_sym(x):
+                return True
+            if depth < 3 and isinstance(x, (list, tuple)):
+                return any(has_sym(y, depth + 1) for y in x)
+            if depth < 3 and isinstance(x, dict):
+                return any(has_sym(y, depth + 1) for y in x.values())
+            return False
+        if any(has_sym(a) for a in args) or any(has_sym(v) for v in kwargs.values()):
+            raise Unmodelled("native call with symbolic data inside a container")
+        try:
+            return target(*args, **kwargs)
+        except Exception as ex:
+            raise PyRaise(type(ex).__name__)
